@@ -14,7 +14,15 @@ RULE = ("histories: a generated machine (1-2 flippers over all wiring variants s
         "EVERY op the platform rule table, device enabled flags, all coil states, PSU handlers, EOS-manager flags, "
         "pending re-enable delays and the recorded set_*_rule/clear_hw_rule calls are compared with the model. "
         "non-trivial = at least one op that re-enables/re-disables an already enabled/disabled device or a timeout "
-        "trip or a lifecycle-off event while some coil is energised; distinct by case hash")
+        "trip or a lifecycle-off event while some coil is energised; distinct by case hash.  8% of the histories are "
+        "the 'handover' class: two flippers on the same button and coil(s), never enabled together, one event "
+        "disables one and enables the other (handler priorities decide whether a rule is overwritten).  "
+        "game (oracle only): REAL games on smart_virtual (game mode, trough+launcher, the real tilt mode, 2 flippers, "
+        "2 autofires): Start/Advance/Tilt/TiltWarn/SlamTilt/tilt_event/Drain/service_mode_entered/end_game/sw_flip, "
+        "with queue handlers that HOLD ball_starting / ball_ending so that tilts arrive before a ball is in play, "
+        "during ball ending and between balls; after every step: tilted or no ball in play or no game => no "
+        "flipper/autofire rule, no enabled device, no energised flipper coil. non-trivial = a tilt was accepted or a "
+        "queue was held")
 TRUSTED_BASE = [
     "Coq 8.16.1 kernel (coqc), vm_compute for evaluating the model in the correspondence run; no native_compute",
     "axioms: none (every Print Assumptions is 'Closed under the global context')",
@@ -30,7 +38,10 @@ TRUSTED_BASE = [
 ASSUMPTIONS = [
     "well-formed configuration: the (switch, coil) keys of all rules of all devices are pairwise distinct (a coil "
     "belongs to one device; a flipper's EOS switch differs from its button) - otherwise virtual.py's overwrite "
-    "assertion is the expected outcome",
+    "assertion is the expected outcome; the 'handover' histories share keys between two flippers but never ask for "
+    "both to be enabled at once (outside the theorems' wf hypothesis, inside the model's executable domain)",
+    "game suite: observations are taken after the machine has run 50 ms without input (zero-duration transients "
+    "inside one event cascade are not observed)",
     "use_eos implies an eos_switch; platform supports every rule kind used (delayed pulse stubbed on virtual)",
     "ops happen on whole seconds and every configured duration has a distinct non-zero 125 ms residue, so no two "
     "timers and no timer and op coincide (asyncio gives no order for equal deadlines)",
@@ -237,7 +248,54 @@ def gen_ops(rng, devs, tier):
     return ops
 
 
+def gen_handover(rng, tier):
+    """Two flippers on the SAME button and coil(s), never enabled together: one event disables one and enables the
+    other.  The disable handler (priority 10) must run before the enable handler (priority 1), otherwise the rule of
+    the second is written over the rule of the first."""
+    hold = 2 if rng.random() < 0.4 else None
+    base = {"kind": "f", "sw": 1, "coil": 1, "hold": hold, "use_eos": False, "eos": None, "repulse": False,
+            "debounce": 0, "bs": rng.random() < 0.5, "flip_ev": [], "rel_ev": []}
+    a = dict(base, en_ev=["ev_a"], dis_ev=["ev_b", "ball_will_end"], bs_hold=1125)
+    b = dict(base, en_ev=["ev_b"], dis_ev=["ev_a", "ball_will_end"], bs_hold=2375)
+    devs = [a, b]
+    if rng.random() < 0.5:
+        devs.append({"kind": "a", "en_ev": None, "dis_ev": None, "flip_ev": [], "rel_ev": [], "sw": rng.choice([1, 3]),
+                     "coil": 5, "delay": 0, "bs": True, "watch": 0, "maxhits": 0, "distime": 0})
+    on = [False, False]
+    ops = []
+    for _ in range(rng.randint(6, 30)):
+        r = rng.random()
+        i = rng.randrange(2)
+        if r < 0.45:
+            e = rng.choice(["ev_a", "ev_b"])
+            ops.append(["Ev", e])
+            on = [e == "ev_a", e == "ev_b"]
+        elif r < 0.55:
+            ops.append(["Ev", rng.choice(["ball_will_end", "ball_started", "ev_c"])])
+            if ops[-1][1] == "ball_will_end":
+                on = [False, False]
+        elif r < 0.65:
+            ops.append(["Disable", i])
+            on[i] = False
+        elif r < 0.72 and not on[1 - i]:
+            ops.append(["Enable", i])
+            on[i] = True
+        elif r < 0.80:
+            ops.append(["SwFlip", i])
+        elif r < 0.85:
+            ops.append(["SwRelease", i])
+        elif r < 0.90:
+            ops.append(["BallSearch", i])
+        elif r < 0.95:
+            ops.append([rng.choice(["SwOn", "SwOff"]), 1])
+        else:
+            ops.append(["Advance", rng.choice([1, 2, 3])])
+    return {"devs": devs, "ops": ops}
+
+
 def gen_hist(rng, tier, i):
+    if rng.random() < 0.08:
+        return gen_handover(rng, tier)
     devs = gen_config(rng)
     return {"devs": devs, "ops": gen_ops(rng, devs, tier)}
 
@@ -337,7 +395,7 @@ class Probe:
                     return orig(enable_switch, *a)
                 finally:
                     kind = p.rules.get((enable_switch.hw_switch, coil.hw_driver))
-                    probe.log.append([probe.own.get(keys[1], 99), 1, KINDS.get(kind, 9)] + keys)
+                    probe.log.append([probe.caller(keys[1]), 1, KINDS.get(kind, 9)] + keys)
             setattr(p, name, f)
         for nm, eos in (("set_pulse_on_hit_rule", False), ("set_pulse_on_hit_and_release_rule", False),
                         ("set_pulse_on_hit_and_enable_and_release_rule", False),
@@ -354,10 +412,23 @@ class Probe:
         orig_clear = p.clear_hw_rule
 
         def clr(switch, coil):
-            probe.log.append([probe.own.get(int(coil.hw_driver.number), 99), 0, int(switch.hw_switch.number),
+            probe.log.append([probe.caller(int(coil.hw_driver.number)), 0, int(switch.hw_switch.number),
                               int(coil.hw_driver.number)])
             return orig_clear(switch, coil)
         p.clear_hw_rule = clr
+
+    def caller(self, coil):
+        """index of the device whose method is making the platform call (two devices may share a coil)"""
+        import sys
+        f = sys._getframe(2)
+        while f is not None:
+            s = f.f_locals.get("self")
+            nm = getattr(s, "name", None)
+            if type(s).__name__ in ("Flipper", "AutofireCoil", "Kickback") and isinstance(nm, str) and nm[:1] == "d" \
+                    and nm[1:].isdigit():
+                return int(nm[1:])
+            f = f.f_back
+        return self.own.get(coil, 99)
 
     def device(self, i):
         d = self.devs[i]
@@ -399,9 +470,9 @@ class Probe:
             elif k == "Advance":
                 self.rig.advance(op[1])
             self.settle()
-        except AssertionError as e:
+        except Exception as e:        # noqa: the overwrite assertion, possibly wrapped by the event manager
             self.err = 1
-            self.exc = "AssertionError: %s" % e
+            self.exc = "%s: %s" % (type(e).__name__, str(e)[:300])
         if self.rig.exception() is not None and not self.err:
             self.err = 1
             self.exc = repr(self.rig.exception())
@@ -620,14 +691,17 @@ def oracle_hist(case, out):
                 quiet.pop(i, None)
         for i, since in quiet.items():
             d = devs[i]
-            if enabled[i] or any(t in trip for t in expected_rules(d)) or reen[i]:
+            if enabled[i] or any(t in trip and t not in want for t in expected_rules(d)) or reen[i]:
                 fails.append({"sig": "rule-after-disable",
                               "what": "device %d was disabled at op %d (%r) but at op %d %r it is enabled=%d, rules %r, "
                                       "pending re-enable=%d" % (i, since, case["ops"][since], n, op, enabled[i], trip, reen[i])})
         # a flipper that is not enabled must not have an energised coil ("cabinet buttons cannot fire coils")
         for i, d in enumerate(devs):
             if d["kind"] == "f" and not enabled[i]:
-                held = [c for c in (d["coil"], d["hold"]) if c is not None and cst[coils.index(c)] == 1]
+                shared = set(c for j, e in enumerate(devs) if e["kind"] == "f" and enabled[j]
+                             for c in (e["coil"], e["hold"]))
+                held = [c for c in (d["coil"], d["hold"]) if c is not None and c not in shared
+                        and cst[coils.index(c)] == 1]
                 if held:
                     fails.append({"sig": "flipper-coil-energised-while-disabled",
                                   "what": "after op %d %r flipper %d is disabled but coil(s) %r are enabled" % (n, op, i, held)})
@@ -673,10 +747,283 @@ def nontrivial_hist(case, out):
 
 def describe_hist(case):
     ks = "".join(sorted(d["kind"] for d in case["devs"]))
+    if len(case["devs"]) > 1 and case["devs"][0].get("en_ev") == ["ev_a"] and case["devs"][1].get("en_ev") == ["ev_b"] \
+            and case["devs"][0]["coil"] == case["devs"][1]["coil"]:
+        ks = "handover-" + ks
     return "devs=%s ops=%s" % (ks, "<=15" if len(case["ops"]) <= 15 else "<=30" if len(case["ops"]) <= 30 else ">30")
 
 
+# ------------------------------------------------------------------------------------------------
+# suite "game": REAL games (game mode, ball devices on smart_virtual, the real tilt mode), oracle only
+GAME_EVENTS = ["game_will_start", "game_starting", "game_started", "player_turn_will_start", "player_turn_starting",
+               "player_turn_started", "ball_will_start", "ball_starting", "ball_started", "ball_will_end", "ball_ending",
+               "ball_ended", "player_turn_will_end", "player_turn_ending", "player_turn_ended", "game_will_end",
+               "game_ending", "game_ended"]
+# Game._run_ball clears the end-of-ball request flag, then runs ball_will_start .. ball_started and waits for the flag.
+# A request (game.end_ball() from Tilt.tilt) made in any OTHER phase of a running game is wiped by the next _run_ball.
+RUN_BALL_PHASES = ["ball_will_start", "ball_starting", "ball_started"]
+
+
+def game_config(v):
+    n = None
+    cfg = {
+        "game": {"balls_per_game": v["balls"]},
+        "modes": ["tilt"],
+        "playfields": {"playfield": {"default_source_device": "bd_launcher", "tags": "default"}},
+        "coils": {"eject_coil1": {"number": n}, "eject_coil2": {"number": n},
+                  "c_flipper": {"number": n, "default_hold_power": 0.125},
+                  "c_f2m": {"number": n, "default_pulse_ms": 20}, "c_f2h": {"number": n, "allow_enable": True},
+                  "c_pop": {"number": n}, "c_sling": {"number": n}},
+        "switches": {"s_start": {"number": n, "tags": "start"}, "s_ball_switch1": {"number": n},
+                     "s_ball_switch2": {"number": n}, "s_ball_switch_launcher": {"number": n},
+                     "s_tilt": {"number": n, "tags": "tilt"}, "s_tilt_warning": {"number": n, "tags": "tilt_warning"},
+                     "s_slam_tilt": {"number": n, "tags": "slam_tilt"}, "s_flipper": {"number": n},
+                     "s_flipper2": {"number": n}, "s_eos2": {"number": n}, "s_pop": {"number": n},
+                     "s_sling": {"number": n}},
+        "ball_devices": {
+            "bd_trough": {"eject_coil": "eject_coil1", "ball_switches": "s_ball_switch1, s_ball_switch2",
+                          "confirm_eject_type": "target", "eject_targets": "bd_launcher",
+                          "tags": "trough, drain, home"},
+            "bd_launcher": {"eject_coil": "eject_coil2", "ball_switches": "s_ball_switch_launcher",
+                            "confirm_eject_type": "target", "eject_timeouts": "6s, 10s"}},
+        "flippers": {"f_test": {"main_coil": "c_flipper", "activation_switch": "s_flipper"},
+                     "f_two": {"main_coil": "c_f2m", "hold_coil": "c_f2h", "activation_switch": "s_flipper2"}},
+        "autofire_coils": {"ac_pop": {"coil": "c_pop", "switch": "s_pop"},
+                           "ac_sling": {"coil": "c_sling", "switch": "s_sling", "timeout_watch_time": "1s",
+                                        "timeout_max_hits": 2, "timeout_disable_time": "750ms"}},
+    }
+    if v["eos"]:
+        cfg["flippers"]["f_two"].update({"eos_switch": "s_eos2", "use_eos": True, "repulse_on_eos_open": True,
+                                         "eos_active_ms_before_repulse": 250})
+    modes = {"tilt": {"tilt": {"reset_warnings_events": "tilt_reset_warnings", "tilt_events": "tilt_event",
+                               "multiple_hit_window": 300, "settle_time": v["settle"],
+                               "warnings_to_tilt": v["warnings"]}}}
+    return cfg, modes
+
+
+def gen_game(rng, tier, i):
+    v = {"balls": rng.choice([1, 2, 3]), "settle": rng.choice([0, 1000, 5000]), "warnings": rng.choice([1, 2, 3]),
+         "eos": rng.random() < 0.5}
+    ops = [["Start"]]
+    if rng.random() < 0.5:
+        # a tilt at a held queue event right at the start of the first ball
+        ops = [["Hold", rng.choice(["ball_starting", "ball_ending"]), 1]] + ops
+    for _ in range(rng.randint(6, 32)):
+        r = rng.random()
+        if r < 0.26:
+            ops.append(["Advance", rng.choice([0.1, 0.25, 0.5, 1, 1, 2, 4, 6, 12])])
+        elif r < 0.36:
+            ops.append(["Tilt"])
+        elif r < 0.46:
+            ops.append(["TiltWarn"])
+        elif r < 0.50:
+            ops.append(["SlamTilt"])
+        elif r < 0.54:
+            ops.append(["TiltEvent"])
+        elif r < 0.66:
+            ops.append(["Drain"])
+        elif r < 0.76:
+            ops.append(["Hold", rng.choice(["ball_starting", "ball_ending"]), rng.choice([0, 1, 1])])
+        elif r < 0.84:
+            ops.append(["Release"])
+        elif r < 0.87:
+            ops.append(["Service"])
+        elif r < 0.90:
+            ops.append(["EndGame"])
+        elif r < 0.925:
+            ops.append(["Start"])
+        elif r < 0.965:
+            # a tilt while a queue event of the ball lifecycle is held (bonus, ball-start show, ...)
+            ev = rng.choice(["ball_starting", "ball_ending"])
+            ops += [["Hold", ev, 1], ["Advance", 12], ["Drain"], ["Advance", rng.choice([0.25, 1, 3])],
+                    rng.choice([["Tilt"], ["TiltEvent"], ["SlamTilt"], ["TiltWarn"]]),
+                    ["Advance", rng.choice([0.25, 1, 6])], ["Hold", ev, 0], ["Release"],
+                    ["Advance", rng.choice([1, 12])]]
+        elif r < 0.985:
+            ops.append(["Flip", rng.choice(["f_test", "f_two"])])
+        else:
+            ops.append(["Hit", rng.choice(["s_pop", "s_sling", "s_flipper", "s_flipper2"])])
+    ops.append(["Release"])
+    ops.append(["Advance", 12])
+    return {"v": v, "ops": ops}
+
+
+def run_game(case):
+    import sys
+    sys.path.insert(0, os.path.dirname(os.path.dirname(os.path.abspath(__file__))))
+    import logging
+    logging.disable(logging.CRITICAL)
+    from rig import GameRig
+    cfg, modes = game_config(case["v"])
+    rig = GameRig(cfg, modes=modes, platform="smart_virtual")
+    try:
+        rig.start()
+    except BaseException as e:
+        return {"boot_error": "%s: %s" % (type(e).__name__, str(e)[:300]), "steps": []}
+    try:
+        m = rig.machine
+        p = m.default_platform
+        st = {"phase": "boot", "hold": {"ball_starting": 0, "ball_ending": 0}, "held": []}
+
+        def mk(ev):
+            def rec(**kwargs):
+                st["phase"] = ev
+            return rec
+        for ev in GAME_EVENTS:
+            m.events.add_handler(ev, mk(ev), priority=100000)
+
+        def mkhold(ev):
+            def hold(queue, **kwargs):
+                if st["hold"][ev]:
+                    queue.wait()
+                    st["held"].append(queue)
+            return hold
+        for ev in ("ball_starting", "ball_ending"):
+            m.events.add_handler(ev, mkhold(ev), priority=-100)
+        m.switch_controller.process_switch("s_ball_switch1", 1)
+        m.switch_controller.process_switch("s_ball_switch2", 1)
+        rig.advance(2)
+        fa_coils = set(m.coils[c].hw_driver for c in ("c_flipper", "c_f2m", "c_f2h", "c_pop", "c_sling"))
+        flip_coils = ["c_flipper", "c_f2m", "c_f2h"]
+        steps = []
+        exc = None
+        for op in case["ops"]:
+            k = op[0]
+            before = st["phase"]
+            skipped = False
+            try:
+                if k == "Start":
+                    rig.hit_and_release_switch("s_start")
+                elif k == "Advance":
+                    rig.advance(op[1])
+                elif k == "Tilt":
+                    rig.hit_and_release_switch("s_tilt")
+                elif k == "TiltWarn":
+                    rig.hit_and_release_switch("s_tilt_warning")
+                elif k == "SlamTilt":
+                    rig.hit_and_release_switch("s_slam_tilt")
+                elif k == "TiltEvent":
+                    m.events.post("tilt_event")
+                elif k == "Drain":
+                    free = [w for w in ("s_ball_switch1", "s_ball_switch2") if not m.switch_controller.is_active(m.switches[w])]
+                    if m.playfield.balls > 0 and free:
+                        p.add_ball_to_device(m.ball_devices["bd_trough"])
+                    else:
+                        skipped = True
+                elif k == "Hold":
+                    st["hold"][op[1]] = op[2]
+                elif k == "Release":
+                    qs, st["held"] = st["held"], []
+                    for q in qs:
+                        q.clear()
+                elif k == "Service":
+                    m.events.post("service_mode_entered")
+                elif k == "EndGame":
+                    if m.game:
+                        m.game.end_game()
+                    else:
+                        skipped = True
+                elif k == "Flip":
+                    m.flippers[op[1]].sw_flip()
+                elif k == "Hit":
+                    rig.hit_and_release_switch(op[1])
+                rig.advance(0.05)         # let the game coroutine and the event queue run dry
+            except Exception as e:    # noqa
+                exc = "%s: %s" % (type(e).__name__, str(e)[:200])
+            if rig.exception() is not None and exc is None:
+                exc = repr(rig.exception())[:300]
+            g = m.game
+            steps.append({
+                "game": 1 if g else 0, "tilted": 1 if (g and g.tilted) else 0, "slam": 1 if (g and g.slam_tilted) else 0,
+                "bip": g.balls_in_play if g else 0, "ending": 1 if (g and g.ending) else 0,
+                "ball": (g.player.ball if (g and g.player) else 0),
+                "rules": sorted(k2[1].number for k2 in p.rules if k2[1] in fa_coils),
+                "held_coils": [c for c in flip_coils if m.coils[c].hw_driver.state == "enabled"],
+                "enabled": sorted(n for coll in (m.flippers, m.autofire_coils) for n, d in coll.items() if d._enabled),
+                "phase_before": before, "phase": st["phase"], "skipped": skipped, "nheld": len(st["held"]),
+                "pf": m.playfield.balls})
+            if exc:
+                steps[-1]["exc"] = exc
+                break
+        return {"steps": steps}
+    finally:
+        rig.stop()
+
+
+def oracle_game(case, out):
+    if out.get("boot_error"):
+        return [{"sig": "machine-does-not-boot", "what": out["boot_error"]}]
+    fails = []
+    prev_tilted = 0
+    accept_phase = None     # lifecycle phase in which the current tilt was accepted
+    for n, (op, s) in enumerate(zip(case["ops"], out["steps"])):
+        if s.get("exc"):
+            fails.append({"sig": "game-exception", "what": "op %d %r: %s" % (n, op, s["exc"])})
+            break
+        if s["tilted"] and not prev_tilted:
+            accept_phase = s["phase_before"]
+        if not s["tilted"]:
+            accept_phase = None
+        prev_tilted = s["tilted"]
+        why = None
+        if not s["game"]:
+            why = "no game is running"
+        elif s["tilted"]:
+            why = "the game is tilted"
+        elif s["bip"] == 0:
+            why = "no ball is in play"
+        elif op[0] == "Service":
+            why = "service mode was entered"
+        if why is None:
+            continue
+        if s["rules"] or s["held_coils"] or s["enabled"]:
+            what = ("after op %d %r %s (phase %s, ball %s) but flipper/autofire rules on coils %r are installed, enabled "
+                    "devices %r, energised flipper coils %r" % (n, op, why, s["phase"], s["ball"], s["rules"],
+                                                                s["enabled"], s["held_coils"]))
+            flip_on = set(c for f, cs in (("f_test", ["c_flipper"]), ("f_two", ["c_f2m", "c_f2h"]))
+                          if f in s["enabled"] for c in cs)
+            if s["game"] and s["tilted"] and accept_phase is not None and accept_phase not in RUN_BALL_PHASES \
+                    and s["phase"] in RUN_BALL_PHASES and set(s["held_coils"]) <= flip_on:
+                # exactly the recorded defect: the tilt was accepted while no ball was being run; Game._run_ball wiped
+                # the end-of-ball request, so the next ball is played (flippers fully working) with game.tilted set
+                sig = "tilt-accepted-between-balls-sticks"
+            elif s["held_coils"]:
+                sig = "flipper-coil-energised-outside-ball"
+            elif s["tilted"]:
+                sig = "rules-while-tilted"
+            elif not s["game"]:
+                sig = "rules-without-game"
+            else:
+                sig = "rules-outside-ball"
+            fails.append({"sig": sig, "what": what + (" [tilt accepted in phase %s]" % accept_phase if s["tilted"] else "")})
+    seen, res = set(), []
+    for f in fails:
+        if f["sig"] not in seen:
+            seen.add(f["sig"])
+            res.append(f)
+    return res
+
+
+def shrink_game(case):
+    ops = case["ops"]
+    for i in range(len(ops)):
+        yield {"v": case["v"], "ops": ops[:i] + ops[i + 1:]}
+
+
+def nontrivial_game(case, out):
+    # a tilt was accepted at least once, or a ball ended while a queue event was held
+    return any(s["tilted"] for s in out.get("steps", [])) or any(s["nheld"] for s in out.get("steps", []))
+
+
+def describe_game(case):
+    ks = set(o[0] for o in case["ops"])
+    return "tilt=%d slam=%d hold=%d service=%d" % ("Tilt" in ks or "TiltWarn" in ks or "TiltEvent" in ks, "SlamTilt" in ks,
+                                                   "Hold" in ks, "Service" in ks)
+
+
 SUITES = [
+    Suite("game", gen_game, run_game, None, None, oracle_game, shrink_game, nontrivial_game,
+          {"quick": 300, "thorough": 5000}, describe=describe_game, case_timeout=180),
     Suite("hist", gen_hist, run_hist, HDR, coq_hist, oracle_hist, shrink_hist, nontrivial_hist,
           {"quick": 500, "thorough": 12000}, describe=describe_hist, shard=60, case_timeout=120),
 ]
